@@ -11,10 +11,10 @@ func init() {
 	register(&property{
 		ID: "C12",
 		Explanation: "Decides structural necessary conditions of session establishment: both ends compute the negotiated version as a min-shaped function of the peer's announced version and their own maximum, and that value is what reaches the initializer factory / communicationVersion; " +
-			"nothing acquired during a failed establishment is left behind on the peer-caused error exits: the dup'ed descriptor, the queue mapping and the buffer-manager reference in newSession, the buffer manager in initMemManager, the mapping after a failed layout step, the received descriptors when they cannot be mapped; the exchange is raced against InitializeTimeout with a buffered result channel; " +
+			"nothing acquired during a failed establishment is left behind on the peer-caused error exits: the dup'ed descriptor, the queue mapping and the buffer-manager reference in newSession, the buffer manager in initMemManager, the mapping after a failed layout step, the received descriptors when they cannot be mapped; the exchange is raced against InitializeTimeout with a buffered result channel; every handshake message that one side waits for is sent by its producer on every success path (so both ends agree on the outcome); " +
 			"the server maps exactly what the client announced (wire order of the two paths and of the two descriptors agrees between sender and receiver, queue<->queue and buffer<->buffer). " +
 			"NOT decided: that both mappings are the very same memory (run-time identity), behaviour for every step at which the peer goes silent beyond the timeout arm's presence, the v2/v3 x file/memfd outcome matrix. Local syscall-failure exits (ftruncate/fstat/mmap failing) are outside the property's peer-fault quantifier and are listed as notes.",
-		RuleText: "R12.1 shape of the version computation on both ends; R12.2 must-pass-through from each acquisition's success edge to every error exit (release, or ownership transfer to a structure the caller cleans); R12.3 escape arm and buffering of the handshake race; R12.4 value-flow identity of announced vs mapped paths/descriptors.",
+		RuleText: "R12.1 shape of the version computation on both ends; R12.2 must-pass-through from each acquisition's success edge to every error exit (release, or ownership transfer to a structure the caller cleans); R12.3 escape arm and buffering of the handshake race; R12.4 value-flow identity of announced vs mapped paths/descriptors; R12.5 wait/send pairing of the handshake messages (every message one side waits for is sent by its producer on every success exit).",
 		Run:      runC12,
 	})
 }
@@ -147,6 +147,7 @@ func runC12(p *P, r *R) {
 	c12Resources(p, r)
 	c12Race(p, r)
 	c12Identity(p, r)
+	c12Duality(p, r)
 }
 
 // R12.2
@@ -572,4 +573,106 @@ func c12Identity(p *P, r *R) {
 			"sender ok=%v receiver buffer=fds[%d] queue=fds[%d]", sOK, rb, rq)
 	}
 	_ = types.Typ
+}
+
+// R12.5 handshake duality: for every event type T that one side waits for (waitEventHeader(fd, T)),
+// the function of the other side that produces T does so on every success path — a success return
+// that skipped the announced message leaves the peer waiting until its timeout while this end
+// believes the session is established.
+func c12Duality(p *P, r *R) {
+	// waited-for types
+	waited := map[int64][]string{}
+	for _, f := range p.fnList {
+		for _, ci := range findInstrs(f, p.mCall("waitEventHeader")) {
+			if k, ok := constInt(ci.(*ssa.Call).Call.Args[1]); ok {
+				waited[k] = append(waited[k], p.fname(f))
+			}
+		}
+	}
+	typeName := map[int64]string{}
+	for _, name := range p.TPkg.Scope().Names() {
+		if c, ok := p.TPkg.Scope().Lookup(name).(*types.Const); ok && namedName(c.Type()) == "eventType" && strings.HasPrefix(name, "type") {
+			v, _ := p.pkgConstInt(name)
+			typeName[v] = name
+		}
+	}
+	r.count("R12.5", "message types some side waits for", len(waited), 3)
+	for t, waiters := range waited {
+		tt := t
+		sendsT := M{ID: "send:" + typeName[tt], F: func(in ssa.Instruction) bool {
+			c, ok := in.(*ssa.Call)
+			if !ok || p.calleeName(&c.Call) != "(header).encode" {
+				return false
+			}
+			k, okk := constInt(c.Call.Args[3])
+			return okk && k == tt
+		}}
+		// producers: functions that encode T directly
+		prods := p.functionsWhere(sendsT)
+		nOK := 0
+		for _, f := range prods {
+			isWaiter := false
+			for _, w := range waiters {
+				if w == p.fname(f) {
+					isWaiter = true
+				}
+			}
+			// every success return of the producer has encoded T and written it
+			write := p.mCall("blockWriteFull")
+			okp, res := p.findBadPath(f, []Point{{f.Blocks[0], -1}}, pathOpts{
+				Discharge: sendsT.F,
+				Bad: func(in ssa.Instruction) bool {
+					ret, isRet := in.(*ssa.Return)
+					if !isRet || (f.Recover != nil && ret.Block() == f.Recover) {
+						return false
+					}
+					return !isErrorExit(ret)
+				},
+			})
+			wrote := false
+			for _, ei := range findInstrs(f, sendsT) {
+				for _, wi := range findInstrs(f, write) {
+					if p.reaches(ei, wi, nil) {
+						wrote = true
+					}
+				}
+			}
+			nOK++
+			role := "peer of " + strings.Join(waiters, ", ")
+			if isWaiter {
+				// a function that both sends and awaits T (symmetric exchange): the send precedes the wait
+				okOrder := true
+				for _, wi := range findInstrs(f, p.mCall("waitEventHeader")) {
+					if k, okk := constInt(wi.(*ssa.Call).Call.Args[1]); !okk || k != tt {
+						continue
+					}
+					dom := false
+					for _, ei := range findInstrs(f, sendsT) {
+						if instrDominates(ei, wi) {
+							dom = true
+						}
+					}
+					if !dom {
+						okOrder = false
+					}
+				}
+				r.ob("R12.5", p.fname(f)+": sends its own "+typeName[tt]+" before it waits for the peer's", p.pos(f.Pos()), okOrder && wrote, true, "")
+				continue
+			}
+			r.ob("R12.5", p.fname(f)+": every success exit has sent "+typeName[tt]+" ("+role+")", p.pos(f.Pos()), okp && wrote, true,
+				"a success return that skips the message leaves the peer in waitEventHeader until its timeout while this end reports success: %s", p.pathString(res))
+		}
+		r.count("R12.5", "producers of "+typeName[tt], nOK, 1)
+	}
+	// the server's v3 path answers the version exchange: serverInit reaches handleExchangeVersion on every success path
+	if si := p.fn("(*protocolInitializerV3).serverInit"); si != nil {
+		okp, res := p.findBadPath(si, []Point{{si.Blocks[0], -1}}, pathOpts{
+			Discharge: p.mCall("handleExchangeVersion").F,
+			Bad: func(in ssa.Instruction) bool {
+				ret, isRet := in.(*ssa.Return)
+				return isRet && !isErrorExit(ret)
+			},
+		})
+		r.ob("R12.5", "(*protocolInitializerV3).serverInit: every success exit answered the version exchange", p.pos(si.Pos()), okp, true, "%s", p.pathString(res))
+	}
 }
